@@ -99,10 +99,15 @@ func historyIndependence(c *core.Check) {
 	c.ParallelRange("history-independence", n, func(i uint64) {
 		a, b := docs[i/uint64(len(docs))], docs[i%uint64(len(docs))]
 		m := corpus.Registry()
-		m.Bytes(a.Type, []byte(a.Text))
+		ra, _ := m.Bytes(a.Type, []byte(a.Text))
+		kept := string(ra)
 		out, err := m.Bytes(b.Type, []byte(b.Text))
 		c.Count(1)
 		c.AddFamily("history-independence", 1, 1)
+		if string(ra) != kept {
+			// the slice handed out by the first call must stay the caller's: no pooled or shared output buffer
+			c.Fail(core.Failure{Family: "history-independence", Input: a.Text + " ⟶ " + b.Text, Config: a.Type + " then " + b.Type, Kind: "earlier-result-overwritten", What: fmt.Sprintf("the result of the first Bytes call was %q; after the second call the same slice reads %q", kept, ra)})
+		}
 		if got := fmt.Sprintf("%s|%v", out, err); got != alone[i%uint64(len(docs))] {
 			c.Fail(core.Failure{Family: "history-independence", Input: a.Text + " ⟶ " + b.Text, Config: a.Type + " then " + b.Type, Kind: "state-survives-call", What: fmt.Sprintf("after minifying A, B gives %q; alone it gives %q", got, alone[i%uint64(len(docs))])})
 		}
